@@ -505,7 +505,7 @@ def correspondence(ctx):
             ctx.oracle_fail(r[1], {"case": case.name})
         else:
             ctx.distinct.add(("lib", case.name))
-    for t in range(6 if ctx.quick else 24):
+    for t in range(14 if ctx.quick else 40):
         case, pts = gen_linsolve_cg_magnitudes(nprng)
         if t % 2 == 0:
             # the shortest history with a drop: everything at the large magnitude first (priming), then the small one
@@ -519,7 +519,9 @@ def correspondence(ctx):
                 ss[0].state, ss[1].state = zoo.vcopy(first[0]), zoo.vcopy(first[1])
                 return mm, ss
             case.make = make
-        r = call_impl(history_oracle, case, nprng, 0 if t % 2 == 0 else int(nprng.integers(8, 16)), 1e-6, pts)
+        # "to solver tolerance": CG stops at a relative residual of 1e-11, the matrices have condition 1e3, so two runs agree to
+        # cond * tol = 1e-8 at worst; ten times that is the tolerance here (observed on the unchanged tree: <= 2.2e-8)
+        r = call_impl(history_oracle, case, nprng, 0 if t % 2 == 0 else int(nprng.integers(8, 16)), 1e-7, pts)
         ctx.evaluations += 1
         ctx.branch("lib.linsolve-cg-magnitudes")
         if r[0] == "err":
